@@ -39,7 +39,7 @@ def run_replay(path, quiet=False):
     env = dict(os.environ, GOFLAGS="-mod=mod", GOPROXY="off", VERIF_REPLAY=os.path.abspath(path))
     env.pop("GOSUMDB", None)
     env.pop("GOTOOLCHAIN", None)
-    r = subprocess.run(["go", "test", "-tags", "verif verif_native", "-vet=off", "-count=1", "-run", "^TestVerifReplay$", "-overlay", ov, "-timeout", "120s", "."],
+    r = subprocess.run(["go", "test", "-tags", "verif verif_native", "-vet=off", "-count=1", "-v", "-run", "^TestVerifReplay$", "-overlay", ov, "-timeout", "120s", "."],
                        cwd=REPO, env=env, capture_output=True, text=True)
     out = r.stdout + r.stderr
     if not quiet:
@@ -58,3 +58,48 @@ def main(args):
     res = run_replay(args[0])
     print({True: "REPRODUCED", False: "NOT REPRODUCED", None: "NO NATIVE REPLAY (engine-only harness, divergence, or build failure)"}[res])
     return 1 if res else 0
+
+
+def validate_witnesses(witnesses):
+    """Run solver-chosen input vectors (one per sampled completed path) natively through the same
+    harness; the engine found every assertion unsat on those paths, so natively no assertion may
+    fail and no assumption may be false. Returns (validated, mismatches[list])."""
+    ws = [w for w in witnesses if w["harness"] in NATIVE_OK]
+    if not ws:
+        return 0, []
+    work = os.path.join(VERIF, "work", "replay")
+    os.makedirs(work, exist_ok=True)
+    overlay = {}
+    hdir = os.path.join(VERIF, "harness")
+    for f in sorted(os.listdir(hdir)):
+        if f.endswith(".go") and f != "v_intrinsics_sym.go":
+            overlay[os.path.join(REPO, "zz_verif_" + f)] = os.path.join(hdir, f)
+    overlay[os.path.join(REPO, "zz_verif_native.go")] = os.path.join(VERIF, "native", "v_intrinsics_native.go")
+    names = sorted(set(w["harness"] for w in ws))
+    test = os.path.join(work, "zz_witness_test.go")
+    open(test, "w").write("//go:build verif && verif_native\n\npackage raft\n\nimport \"testing\"\n\n"
+                          "func TestVerifWitnesses(t *testing.T) { vReplayWitnesses(t, map[string]func(){%s}) }\n" % ", ".join('"%s": %s' % (n, n) for n in names))
+    overlay[os.path.join(REPO, "zz_verif_witness_test.go")] = test
+    ov = os.path.join(work, "overlay_w.json")
+    json.dump({"Replace": overlay}, open(ov, "w"))
+    wf = os.path.join(work, "witnesses.json")
+    json.dump([{"harness": w["harness"], "inputs": w["inputs"]} for w in ws], open(wf, "w"))
+    env = dict(os.environ, GOFLAGS="-mod=mod", GOPROXY="off", VERIF_WITNESSES=wf)
+    env.pop("GOSUMDB", None)
+    env.pop("GOTOOLCHAIN", None)
+    r = subprocess.run(["go", "test", "-tags", "verif verif_native", "-vet=off", "-count=1", "-v", "-run", "^TestVerifWitnesses$", "-overlay", ov, "-timeout", "600s", "."],
+                       cwd=REPO, env=env, capture_output=True, text=True)
+    ok, bad = 0, []
+    seen = 0
+    for line in r.stdout.split("\n"):
+        if line.startswith("WITNESS-RESULT "):
+            seen += 1
+            d = json.loads(line[len("WITNESS-RESULT "):])
+            failed = [f for f in (d.get("failed") or []) if not f.startswith("KF:")]
+            if d["how"] == "returned" and not failed:
+                ok += 1
+            else:
+                bad.append(d)
+    if seen == 0:
+        bad.append({"how": "native witness run produced no results", "detail": (r.stdout + r.stderr)[-600:]})
+    return ok, bad
